@@ -17,6 +17,7 @@ pub mod props_mapper;
 pub mod props_c06;
 pub mod loopsim;
 pub mod props_loop;
+pub mod props_real;
 pub mod props_c13;
 pub mod props_c14;
 pub mod props_c15;
